@@ -648,6 +648,7 @@ def run(ctx):
               "the client fetches `<locale>.json` for every locale and casts it to the expected length; a file left out or a string written differently breaks that locale", floor=1)
     try:
         exporteval.check(ctx, r8, "R8")
+        exporteval.check_endpoint(ctx, r8, "R8")
     except _absint.Unknown as u:
         r8.viol("R8:undecided", "the export cannot be interpreted on the current code (%s): not decided on this tree (fail closed)" % str(u)[:300])
     # the client turns the fetched list into the fixed-size table the accessors index: a length that differs from the expected
